@@ -344,8 +344,9 @@ func genTotal(c *genCtx) error {
 					segs = append(segs, seg{[]byte(cl), n})
 				}
 				var cj jb
-				cj.raw(`process died (fatal error, e.g. goroutine stack exhausted) in the entry points on the document `)
+				cj.raw(`{"op":"total","note":"the process died (fatal error, e.g. goroutine stack exhausted) inside an entry point on this document","segs":`)
 				cj.segs(segs)
+				cj.raw(`}`)
 				crash := filepath.Join(c.outDir, "CRASH")
 				os.WriteFile(crash, cj.b, 0o644)
 				runTotal(c.sw, &j, expandSegs(segs), segs, c.st)
@@ -424,6 +425,7 @@ func init() {
 				segs = append(segs, seg{anyBytes(p[0]), int(p[1].(float64))})
 			}
 		}
+		debug.SetMaxStack(256 << 20) // as in the generator (a few MB suffice within the 10,000-level limit)
 		runTotal(nil, &j, data, segs, newStats())
 		return append([]byte{}, j.b...), nil
 	}
